@@ -5,11 +5,18 @@ Property: every successful tbbmalloc allocation returns a block that overlaps no
 metadata, is aligned as requested (default 16, or 8 for requests ≤ 8 bytes), has msize ≥ request, …
 The theorems below carry the front-end part of it for ALL request sizes and alignments: size classes, slab
 layout, the `allocateAligned` strategies (stated over the case split *generated from the source text*),
-interior-pointer recovery by free/msize, and large-object placement.  The back end, the back-reference table
-and content preservation are covered by the E-REAL shadow-heap monitor only (see checks/c17.py).
+interior-pointer recovery by free/msize, and large-object placement.  The BACK END (regions, boundary tags, bins, splitting, coalescing, delayed coalescing, region release, reset, remap) and
+the BACK-REFERENCE table have models of their own (`Model/C17Backend.lean`, `Model/C17Backref.lean`, `Model/C17Coal.lean`);
+their theorems are in the second half of this file (sections Backend, GuardedSize, Backref).  Content preservation by realloc
+is covered by the monitors.
 -/
 import TbbVerif.Proofs.C17
 import TbbVerif.Proofs.C17Slab
+import TbbVerif.Proofs.C17.BeReset
+import TbbVerif.Proofs.C17.BeBinIdx
+import TbbVerif.Proofs.C17.CoalProto
+import TbbVerif.Proofs.C17.BrOps
+import TbbVerif.Proofs.C17.BeFrame
 
 namespace TbbVerif.C17
 open TbbVerif.Cint
@@ -267,5 +274,423 @@ example : smallResult 6096 true (2 ^ 12) 1 = some (8128, 4032) ∧ findObjectToF
     findObjectSize 8128 (8128 - 4032) = 4096 := by decide
 example : lloPlace 1000000 16384 8129 (2 ^ 6) 3 true = 1000128 + 3 * 64 ∧ lloPlace 1000000 16384 8129 (2 ^ 6) 3 false = 1000128 := by decide
 example : heapAlloc [⟨0, 16⟩] ⟨16, 8⟩ = some [⟨16, 8⟩, ⟨0, 16⟩] ∧ heapAlloc [⟨0, 16⟩] ⟨8, 16⟩ = none := by decide
+
+/-! ## Back end (src/tbbmalloc/backend.cpp) — model `Model/C17Backend.lean`, invariant `Model/C17BackendInv.lean` -/
+
+section Backend
+open TbbVerif.C17.BE
+open TbbVerif.Generated.C17Backend
+
+/-- **Every reachable state of the back end is well formed** — for every pool configuration (fixed or not, keepAllMemory,
+granularity), every sequence of `genericGetBlock` / `genericPutBlock` / `scanCoalescQ` / `clean` / `reset` calls of any
+sizes, every answer of the raw allocator, with bin mutexes held and neighbours being freed by other threads at any time:
+  * each region is EXACTLY tiled by its blocks — free, in use, queued for delayed coalescing, being freed — from its
+    first block to its `LastFreeBlock`, which fits the mapping (`regOK`, `chainOK`);
+  * the boundary tags are consistent: every block's `leftL` equals its left neighbour's `myL`, which is the block's size
+    iff it is free (LOCKED / COAL_BLOCK otherwise, LAST_REGION_BLOCK for the last block);
+  * the bins hold exactly the free blocks that name a bin, each once (`Perm`), in the bin of their size
+    (`myBin = sizeToBin size`), a non-empty bin has its mask bit set; `coalescQ` holds exactly the queued blocks;
+  * regions do not overlap; the model never followed a tag value to a non-block (`bad = false`). -/
+theorem backend_region_tiling (cfg : Cfg) (ops : List Op) : WF ((machine cfg).run ops).1 := wf_run cfg ops
+
+/-- **A block in a bin is free, big enough for its bin, and tagged as such on both sides**; in a slab-aligned bin its
+right end is slab-aligned (what `getFromBin` / `splitBlock` rely on when they cut a slab-aligned block off the right
+end).  Holds in every reachable state. -/
+theorem backend_bin_block_is_free (cfg : Cfg) (ops : List Op) (e : Entry) (he : e ∈ ((machine cfg).run ops).1.g.bins) :
+    ∃ c, locate ((machine cfg).run ops).1 e.addr = some c ∧ c.z.cur.own = .free ∧ c.z.cur.myL = c.z.cur.size ∧
+      sizeToBin c.z.cur.size = (e.bin : Int) ∧ beMinBinnedSize ≤ c.z.cur.size ∧ c.z.cur.aligned = e.al ∧
+      (∃ r post, c.z.post = r :: post ∧ r.leftL = c.z.cur.size) ∧
+      (e.al = true → (e.addr + c.z.cur.size) % beSlabSize = 0) :=
+  wf_bin_entry _ (wf_run cfg ops) e he
+
+/-- **Coalescing keeps the tiling and the handed-out blocks, whatever it meets**: one iteration of `coalescAndPutList`
+(`doCoalesc` with a left and/or right merge, a neighbour locked or being coalesced by someone else — then the request is
+queued —, the whole region becoming free — then it is released or kept at the tail of its bin —, the bin mutex busy) from
+ANY well-formed state leaves a well-formed state (exact tiling of every region, consistent boundary tags, bins = the free
+blocks that name them), AND the list of blocks in the hands of callers (address, size) is literally unchanged: a merge
+never swallows an in-use block or crosses a region border, because every block that is not free carries a LOCKED /
+COAL_BLOCK / LAST_REGION_BLOCK tag and `doCoalesc` merges only across a tag that is a size; a released region holds no
+handed-out block. -/
+theorem backend_coalesce_preserves (s : St) (addr : Nat) (force report : Bool) (hw : WF s) :
+    WF (coalescAndPut1 s addr force report).1 ∧
+    allUsers (coalescAndPut1 s addr force report).1.regions = allUsers s.regions :=
+  ⟨coalescAndPut1_wf s addr force report hw, coalescAndPut1_users s addr force report hw⟩
+
+/-- **Draining the delayed-coalescing queue** (`scanCoalescQ`, any number of queued requests, forced or not) keeps the
+invariant and the handed-out blocks. -/
+theorem backend_scan_preserves (s : St) (force : Bool) (hw : WF s) :
+    WF (scanCoalescQ s force).1 ∧ allUsers (scanCoalescQ s force).1.regions = allUsers s.regions :=
+  ⟨scanCoalescQ_wf s force hw, scanCoalescQ_users s force hw⟩
+
+/-- **`genericPutBlock` takes back exactly the block it is given.**  The handed-out blocks before are the freed block
+plus the handed-out blocks after — whatever the coalescing that follows merges, queues or releases. -/
+theorem backend_put_takes_back_only_its_block (s : St) (addr : Nat) (hw : WF s) (s' : St) (h : genericPutBlock s addr = (s', true)) :
+    ∃ c, locate s addr = some c ∧ (allUsers s.regions).Perm ((addr, c.z.cur.size) :: allUsers s'.regions) :=
+  genericPutBlock_users s addr hw s' h
+
+/-- **Blocks in the hands of callers are disjoint.**  In every reachable state the blocks handed out by `genericGetBlock`
+and not yet given back (`allUsers`: address, size) are pairwise disjoint; each is at least `minBlockSize` long and lies
+inside one region, behind the `MemRegion` header and in front of the `LastFreeBlock`; and none overlaps a block that is in
+a bin (so a later `genericGetBlock` cannot hand out memory that is already out). -/
+theorem backend_get_disjoint (cfg : Cfg) (ops : List Op) :
+    (allUsers ((machine cfg).run ops).1.regions).Pairwise blkDisj ∧
+    (∀ u ∈ allUsers ((machine cfg).run ops).1.regions, beMinBlockSize ≤ u.2 ∧
+      ∃ r ∈ ((machine cfg).run ops).1.regions, r.base + beSizeofMemRegion ≤ u.1 ∧ u.1 + u.2 + beSizeofLastFreeBlock ≤ r.base + r.allocSz) ∧
+    (∀ u ∈ allUsers ((machine cfg).run ops).1.regions, ∀ e ∈ ((machine cfg).run ops).1.g.bins,
+      ∃ c, locate ((machine cfg).run ops).1 e.addr = some c ∧ c.z.cur.own = .free ∧ blkDisj u (e.addr, c.z.cur.size)) :=
+  have hw := wf_run cfg ops
+  ⟨users_pairwise _ hw, users_inside _ hw, users_clear_of_bins _ hw⟩
+
+/-- **What is handed out is recorded.**  The end of `genericGetBlock` (`giveUser`: `num` blocks of `size` bytes from
+`addr` on) puts every one of them on the list `backend_get_disjoint` speaks about, and removes none (unless the model
+flagged a ghost-precondition miss, `skip`, which the differential reports). -/
+theorem backend_handout_recorded (s : St) (addr size num : Nat) (al : Bool) (h : (giveUser s addr size al num).g.skip = false) :
+    (∀ k, k < num → (addr + k * size, size) ∈ allUsers (giveUser s addr size al num).regions) ∧
+    (∀ u ∈ allUsers s.regions, u ∈ allUsers (giveUser s addr size al num).regions) :=
+  giveUser_records size al num s addr h
+
+/-- **Every operation keeps the invariant** (the inductive step of `backend_region_tiling`). -/
+theorem backend_step_preserves (s : St) (op : Op) (hw : WF s) : WF (step s op).1 := step_wf s op hw
+
+/-- **The bin index is sound.**  `sizeToBin` is monotone, `NO_BIN` exactly below `minBinnedSize`, never above `HUGE_BIN`
+(which is the last bin: no overflow of the bin array for any size), so (what `findBlock` relies on when it starts at
+the request's bin) every block in a higher bin is strictly larger than the request and every block in a lower bin is
+strictly smaller; inside the request's own bin the code compares sizes itself (`fitGeneral`).  The regenerated C++
+expression (with its `int` conversion) computes the model's function for every 64-bit size. -/
+theorem bin_index_sound (req s : Nat) :
+    (req ≤ s → sizeToBin req ≤ sizeToBin s) ∧ (sizeToBin s = -1 ↔ s < beMinBinnedSize) ∧
+    (-1 ≤ sizeToBin s ∧ sizeToBin s ≤ (beHugeBin : Int) ∧ (beHugeBin : Int) < beFreeBinsNum) ∧
+    (sizeToBin req < sizeToBin s → req < s) ∧ (sizeToBin s < sizeToBin req → s < req) ∧
+    (s < 2 ^ 64 → sizeToBinG s = sizeToBin s) :=
+  ⟨sizeToBin_mono req s, sizeToBin_neg s, sizeToBin_range s, (bin_block_fits req s).1, (bin_block_fits req s).2, sizeToBin_gen s⟩
+
+/-- **The fit tests and `toAlignedBin` as coded** (regenerated from the source) are the model's: a block taken by
+`getFromBin` is at least as large as the request and leaves no remainder smaller than a block header. -/
+theorem backend_fit_tests_as_coded (curr szBlock size : Nat) (h1 : curr + szBlock < 2 ^ 63) (h2 : size < 2 ^ 63) :
+    fitGeneralG curr szBlock size = fitGeneral szBlock size ∧ fitAlignedG curr szBlock size = fitAligned curr szBlock size ∧
+    toAlignedBinG curr szBlock = toAlignedBin curr szBlock ∧
+    (fitGeneral szBlock size = true → size ≤ szBlock ∧ (szBlock = size ∨ beMinBlockSize ≤ szBlock - size)) :=
+  ⟨fitGeneral_gen curr szBlock size (by omega), fitAligned_gen curr szBlock size h1 h2, toAlignedBin_gen curr szBlock (by omega), by
+    intro h
+    unfold fitGeneral at h
+    simp only [Bool.and_eq_true, decide_eq_true_eq, Bool.or_eq_true, beq_iff_eq] at h
+    omega⟩
+
+/-- **`Backend::remap` (large realloc through mremap) keeps the prefix and stays disjoint** — over the size expressions
+regenerated from the source.  The object keeps its offset in the mapping, so the bytes the OS preserves (the first
+`min(old mapping, new mapping)`) contain the first `min(oldSize, newSize)` bytes of the object; the re-initialised
+block starts behind the region header, covers its headers and the WHOLE new object (`ptr' + newSize ≤ block end`), and
+the block with the `LastFreeBlock` behind it lies inside the new mapping — hence it is disjoint from whatever any other
+mapping holds.  (Sizes below 2^62; the wrap-around test is C18's `remap_guard_sound`.) -/
+theorem remap_keeps_prefix_and_disjoint (ptr region newRegion oldSize newSize alignment k oldRegionSize : Nat)
+    (hk7 : 7 ≤ k) (hk : k ≤ 32) (hnr : newRegion % 64 = 0) (hnr2 : newRegion < 2 ^ 62)
+    (hlo : region + (64 + beSizeofLargeMemoryBlock + beSizeofLargeObjectHdr) ≤ ptr) (hoff : ptr - region < 2 ^ 32) (hp : ptr < 2 ^ 64)
+    (hsz : newSize < 2 ^ 62) (hold : (ptr - region) + oldSize ≤ oldRegionSize) :
+    let u := remapUserOffsetG ptr region oldSize newSize alignment (2 ^ k)
+    let A := remapAlignedSizeG ptr region oldSize newSize alignment (2 ^ k)
+    let R := remapRequestSizeG ptr region oldSize newSize alignment (2 ^ k)
+    let fb := remapBlockG newRegion u
+    let obj := remapObjectG newRegion u
+    (u = ptr - region ∧ obj = newRegion + (ptr - region) ∧ (ptr - region) + min oldSize newSize ≤ min oldRegionSize R ∧
+      newRegion + beSizeofMemRegion ≤ fb ∧ fb + beSizeofLargeMemoryBlock + beSizeofLargeObjectHdr ≤ obj ∧ obj + newSize ≤ fb + A ∧
+      fb + A + beSizeofLastFreeBlock ≤ newRegion + R) ∧
+    (∀ b len, (b + len ≤ newRegion ∨ newRegion + R ≤ b) → (b + len ≤ fb ∨ fb + A + beSizeofLastFreeBlock ≤ b)) := by
+  intro u A R fb obj
+  have h : u = ptr - region ∧ obj = newRegion + (ptr - region) ∧ (ptr - region) + min oldSize newSize ≤ min oldRegionSize R ∧
+      newRegion + beSizeofMemRegion ≤ fb ∧ fb + beSizeofLargeMemoryBlock + beSizeofLargeObjectHdr ≤ obj ∧ obj + newSize ≤ fb + A ∧
+      fb + A + beSizeofLastFreeBlock ≤ newRegion + R :=
+    remap_arith ptr region newRegion oldSize newSize alignment k oldRegionSize hk7 hk hnr hnr2 hlo hoff hp hsz hold
+  refine ⟨h, ?_⟩
+  obtain ⟨_, _, _, h4, _, _, h7⟩ := h
+  intro b len hd
+  generalize fb = fb' at *
+  generalize A = A' at *
+  generalize R = R' at *
+  simp only [beSizeofMemRegion, beSizeofLastFreeBlock] at *
+  rcases hd with hd | hd
+  · left; omega
+  · right; omega
+
+/-- **`scalable_calloc` zero-fills on every path** (statement skeleton regenerated from the source): whatever the
+size, a non-null result has been through `memset(result, 0, nobj*size)`. -/
+theorem calloc_zero_fill_unconditional (arraySize : Nat) : callocMemsetG arraySize = true := calloc_memset_gen arraySize
+
+/-! Non-vacuity: the invariant is satisfied by non-trivial states, the machine does things. -/
+/-- (a state the real back end was observed in: a 2 MB slab region after `getSlabBlock(1)`) -/
+example : WF ⟨{ cfg := ⟨false, false, 4096⟩, bins := [⟨true, 250, 1073741864⟩], mask := [(true, 250)] },
+    [{ base := 1073741824, allocSz := 2097152, blockSz := 2080728, type := 0, first := 1073741864,
+       blocks := [{ size := 2064344, own := .free, myL := 2064344, leftL := 0, myBin := 250, aligned := true },
+                  { size := 16384, own := .user true, myL := 0, leftL := 2064344 },
+                  { size := 64, own := .last, myL := 2, leftL := 0 }] }]⟩ := by decide
+example : sizeToBin 8191 = -1 ∧ sizeToBin 8192 = 0 ∧ sizeToBin 16383 = 0 ∧ sizeToBin 16384 = 1 ∧ sizeToBin 4194303 = 510 ∧
+    sizeToBin 4194304 = 511 ∧ sizeToBin (2 ^ 63) = 511 := by decide
+example : fitGeneral 16384 16384 = true ∧ fitGeneral 16400 16384 = false ∧ fitGeneral 16440 16384 = true := by decide
+
+end Backend
+
+/-! ## The guarded-size locking protocol at atomic-access level — model `Model/C17Coal.lean` -/
+
+section GuardedSize
+open TbbVerif.C17.Coal
+open TbbVerif.Generated.C17Backend
+
+theorem won_holds (b : Bool) (t : Th) (h : t.pc.isWon = true) : holdsW b t = true := by
+  unfold holdsW
+  cases hp : t.pc <;> rw [hp] at h <;> simp_all [Pc.isWon, Pc.holdsFirst]
+
+/-- **Two threads never merge — or take — the same block.**  A free block of any size `sz` (above the special values
+of `GuardedSize`), any number of getters (`tryLockBlock`), of threads freeing its right neighbour and of threads freeing
+its left neighbour (`doCoalesc`), one atomic access (load, compare-exchange, store) at a time under ANY schedule: at
+most one of them ever holds both tag words, i.e. gets the block. -/
+theorem guarded_size_exclusive (sz : Nat) (hsz : gsMaxLockedVal < sz) (kinds : List Kind) (sched : List Tid) :
+    ((sys sz kinds).run sched).winners ≤ 1 := by
+  have hi := (inv_run sz hsz kinds sched).w true
+  have hle : ((sys sz kinds).run sched).winners ≤ ((sys sz kinds).run sched).ths.countP (holdsW true) :=
+    List.countP_mono_left (fun t _ h => won_holds true t h)
+  rcases hi with ⟨_, h1⟩ | ⟨_, h0⟩ <;> omega
+
+/-- **A block being coalesced is never handed out** (and a block handed out is not being coalesced): in every
+reachable state each of the two tag words is held by at most one thread, and whoever has won the block holds both —
+so while a getter has the block no coalescer holds (has marked COAL_BLOCK) either word, and while a coalescer holds a
+word no getter can have won. -/
+theorem backend_no_handout_while_coalescing (sz : Nat) (hsz : gsMaxLockedVal < sz) (kinds : List Kind) (sched : List Tid) :
+    let s := (sys sz kinds).run sched
+    s.ths.countP Th.holdsMy ≤ 1 ∧ s.ths.countP Th.holdsLf ≤ 1 ∧
+    (∀ t ∈ s.ths, t.pc.isWon = true → t.holdsMy = true ∧ t.holdsLf = true) := by
+  intro s
+  have hi : Inv sz s := inv_run sz hsz kinds sched
+  have e1 : s.ths.countP Th.holdsMy = s.ths.countP (holdsW true) := by congr 1; funext t; exact holdsMy_eq t
+  have e2 : s.ths.countP Th.holdsLf = s.ths.countP (holdsW false) := by congr 1; funext t; exact holdsLf_eq t
+  refine ⟨?_, ?_, fun t _ h => ⟨by rw [holdsMy_eq]; exact won_holds true t h, by rw [holdsLf_eq]; exact won_holds false t h⟩⟩
+  · rw [e1]; rcases hi.w true with ⟨_, h⟩ | ⟨_, h⟩ <;> omega
+  · rw [e2]; rcases hi.w false with ⟨_, h⟩ | ⟨_, h⟩ <;> omega
+
+/-- **Losers leave the block as they found it**: whenever nobody holds a tag word it carries the block's size again
+(every failed `tryLock` pair has rolled its first word back with the value it had read), so the block stays available
+— with consistent boundary tags — to the next getter or coalescer. -/
+theorem guarded_size_tags_restored (sz : Nat) (hsz : gsMaxLockedVal < sz) (kinds : List Kind) (sched : List Tid) :
+    let s := (sys sz kinds).run sched
+    (s.ths.countP Th.holdsMy = 0 → s.my = sz) ∧ (s.ths.countP Th.holdsLf = 0 → s.lf = sz) := by
+  intro s
+  have hi : Inv sz s := inv_run sz hsz kinds sched
+  have e1 : s.ths.countP Th.holdsMy = s.ths.countP (holdsW true) := by congr 1; funext t; exact holdsMy_eq t
+  have e2 : s.ths.countP Th.holdsLf = s.ths.countP (holdsW false) := by congr 1; funext t; exact holdsLf_eq t
+  have w1 : s.word true = s.my := rfl
+  have w2 : s.word false = s.lf := rfl
+  constructor
+  · intro h0; rw [e1] at h0
+    rcases hi.w true with ⟨_, h⟩ | ⟨h, _⟩
+    · omega
+    · rw [← w1]; exact h
+  · intro h0; rw [e2] at h0
+    rcases hi.w false with ⟨_, h⟩ | ⟨h, _⟩
+    · omega
+    · rw [← w2]; exact h
+
+/-! Non-vacuity: a getter and the thread freeing the right neighbour race for a 16 KB block.  Opposite acquisition
+orders: in the first schedule each takes its first word, both fail on the second, both roll back (nobody wins, tags
+restored); in the second the getter wins and the coalescer gives up. -/
+example :
+    let r := (sys 16384 [.getter, .coalRight]).run [0, 1, 0, 1, 0, 1, 0, 1, 0, 1]
+    r.winners = 0 ∧ r.my = 16384 ∧ r.lf = 16384 ∧ r.ths.map (·.pc) = [.lost, .lost] := by decide
+example :
+    let r := (sys 16384 [.getter, .coalRight]).run [0, 0, 0, 0, 1, 1]
+    r.winners = 1 ∧ r.my = gsLocked ∧ r.lf = gsLocked ∧ r.ths.map (·.pc) = [.won, .lost] := by decide
+
+end GuardedSize
+
+/-! ## Back-reference table (`src/tbbmalloc/backref.cpp`)
+
+Model: `Model/C17Backref.lean` (one step per `newBackRef` / `setBackRef` / `removeBackRef`; `getBackRef` reads one word).
+`tabInv`: no `bad` (the code never handed out / followed a word that is not a slot of the leaf), at most `dataSz` leaves,
+per leaf the free list threaded through the slot words matches the ghost list of free offsets, the bump pointer and
+`allocatedCount` account for every slot, never-used slots are zero. -/
+section Backref
+open TbbVerif.C17.BR
+open TbbVerif.Generated.C17Backend
+
+/-- The table invariant holds after every sequence of operations (for every answer of the raw-memory allocator). -/
+theorem backref_table_invariant (mainAddr : Nat) (ops : List BR.Op) : tabInv ((BR.machine mainAddr).run ops).1 :=
+  BR.inv_run mainAddr ops
+
+/-- **Live indices are distinct.**  The index `newBackRef` returns was not live, is live afterwards and carries the
+requested kind; every index that was live names a different slot, stays live and keeps its pointer. -/
+theorem backref_new_index_is_fresh (t : Tab) (hi : tabInv t) (large : Bool) (raws : List (Option Nat)) (t' : Tab) (i : Idx) (u : Nat)
+    (h : newBackRef t large raws = (t', some i, u)) :
+    tabInv t' ∧ t.live i = false ∧ t'.live i = true ∧ i.large = large ∧
+    ∀ j : Idx, t.live j = true → (j.main ≠ i.main ∨ j.off ≠ i.off) ∧ t'.live j = true ∧ getBackRef t' j = getBackRef t j := by
+  have hp := newBackRef_ok t large raws hi
+  rw [h] at hp
+  obtain ⟨p1, p2, q1, q2, q3, q4⟩ := hp
+  refine ⟨p1, q1, q2, q3, fun j hj => ?_⟩
+  have hne : j.main ≠ i.main ∨ j.off ≠ i.off := by
+    by_cases e1 : j.main = i.main
+    · by_cases e2 : j.off = i.off
+      · exfalso
+        have : t.live j = t.live i := by unfold Tab.live; rw [e1, e2]
+        rw [this, q1] at hj; cases hj
+      · exact Or.inr e2
+    · exact Or.inl e1
+  exact ⟨hne, by rw [q4 j hne]; exact hj, p2 j⟩
+
+/-- A failed `newBackRef` changes nothing an index holder can see. -/
+theorem backref_new_failure_is_silent (t : Tab) (hi : tabInv t) (large : Bool) (raws : List (Option Nat)) (t' : Tab) (u : Nat)
+    (h : newBackRef t large raws = (t', none, u)) :
+    tabInv t' ∧ ∀ j : Idx, t'.live j = t.live j ∧ getBackRef t' j = getBackRef t j := by
+  have hp := newBackRef_ok t large raws hi
+  rw [h] at hp
+  exact ⟨hp.1, fun j => ⟨hp.2.2 j, hp.2.1 j⟩⟩
+
+/-- **A live index names exactly one pointer.**  `getBackRef` after `setBackRef(i, v)` returns `v`; no other index sees a
+change. -/
+theorem backref_set_then_get (t : Tab) (hi : tabInv t) (i : Idx) (v : Nat) (hl : t.live i = true) :
+    ∃ t', setBackRef t i v = some t' ∧ tabInv t' ∧ getBackRef t' i = v ∧ (∀ j, t'.live j = t.live j) ∧
+      ∀ j : Idx, (j.main ≠ i.main ∨ j.off ≠ i.off) → getBackRef t' j = getBackRef t j := by
+  obtain ⟨t', a, b, c, d, e⟩ := setBackRef_spec t i v hi hl
+  exact ⟨t', a, b, d, c, e⟩
+
+/-- `removeBackRef(i)` ends the life of `i` and of nothing else; the other indices keep their pointers. -/
+theorem backref_remove_only_its_slot (t : Tab) (hi : tabInv t) (i : Idx) (hl : t.live i = true) :
+    ∃ t', removeBackRef t i = some t' ∧ tabInv t' ∧ t'.live i = false ∧
+      ∀ j : Idx, (j.main ≠ i.main ∨ j.off ≠ i.off) → t'.live j = t.live j ∧ getBackRef t' j = getBackRef t j :=
+  removeBackRef_spec t i hi hl
+
+/-- the operation is not `setBackRef` / `removeBackRef` of the slot `i` -/
+def notAbout (i : Idx) : BR.Op → Prop
+  | .new _ _ => True
+  | .set j _ => j.main ≠ i.main ∨ j.off ≠ i.off
+  | .rm j => j.main ≠ i.main ∨ j.off ≠ i.off
+
+/-- **A live index keeps its pointer** through every operation that is not about it (including allocation of new indices,
+growth of the table, and operations on stale / foreign indices, which the model ignores). -/
+theorem backref_live_index_keeps_pointer (t : Tab) (hi : tabInv t) (i : Idx) (hl : t.live i = true) (op : BR.Op) (hn : notAbout i op) :
+    (BR.step t op).1.live i = true ∧ getBackRef (BR.step t op).1 i = getBackRef t i := by
+  have hsym : ∀ j : Idx, (j.main ≠ i.main ∨ j.off ≠ i.off) → (i.main ≠ j.main ∨ i.off ≠ j.off) := fun j h => by
+    rcases h with h | h
+    · exact Or.inl (fun e => h e.symm)
+    · exact Or.inr (fun e => h e.symm)
+  cases op with
+  | new large raws =>
+    have hp := newBackRef_ok t large raws hi
+    simp only [BR.step]
+    generalize newBackRef t large raws = r at hp
+    obtain ⟨t', r2, u⟩ := r
+    obtain ⟨p1, p2, p3⟩ := hp
+    refine ⟨?_, p2 i⟩
+    cases r2 with
+    | none => show t'.live i = true; rw [p3 i]; exact hl
+    | some k =>
+      obtain ⟨q1, q2, q3, q4⟩ := p3
+      show t'.live i = true
+      have hne : i.main ≠ k.main ∨ i.off ≠ k.off := by
+        by_cases e1 : i.main = k.main
+        · by_cases e2 : i.off = k.off
+          · exfalso
+            have : t.live i = t.live k := by unfold Tab.live; rw [e1, e2]
+            rw [this] at hl; rw [hl] at q1; cases q1
+          · exact Or.inr e2
+        · exact Or.inl e1
+      rw [q4 i hne]; exact hl
+  | set j v =>
+    simp only [BR.step]
+    cases hs : setBackRef t j v with
+    | none => exact ⟨hl, rfl⟩
+    | some t' =>
+      have hlj : t.live j = true := by
+        unfold setBackRef at hs
+        cases h : t.live j with
+        | true => rfl
+        | false => rw [h] at hs; cases hs
+      obtain ⟨t'', e, _, c, _, f⟩ := setBackRef_spec t j v hi hlj
+      rw [hs] at e; cases e
+      exact ⟨by show t'.live i = true; rw [c i]; exact hl, f i (hsym j hn)⟩
+  | rm j =>
+    simp only [BR.step]
+    cases hs : removeBackRef t j with
+    | none => exact ⟨hl, rfl⟩
+    | some t' =>
+      have hlj : t.live j = true := by
+        unfold removeBackRef at hs
+        cases h : t.live j with
+        | true => rfl
+        | false => rw [h] at hs; cases hs
+      obtain ⟨t'', e, _, _, f⟩ := removeBackRef_spec t j hi hlj
+      rw [hs] at e; cases e
+      obtain ⟨f1, f2⟩ := f i (hsym j hn)
+      exact ⟨by show t'.live i = true; rw [f1]; exact hl, f2⟩
+
+/-- **`getBackRef` of a garbage index never reads outside the table.**  For EVERY bit pattern of a `BackRefIdx` (32-bit
+`main`, 15-bit `offset`) the bounds test AS CODED (regenerated from backref.cpp every run) either rejects, or the one word
+that is read is word `b/8` of a registered leaf `n ≤ lastUsed`: inside `backRefBl[0..dataSz)` and inside the leaf's 16 KB,
+behind its header. -/
+theorem backref_get_stays_in_table (t : Tab) (hi : tabInv t) (i : Idx) (hm : i.main < 2 ^ 32) (ho : i.off < 2 ^ 15) :
+    (getBackRefRejectG t.lastUsed i.main i.off = true → getBackRefAccess t i = none ∧ getBackRef t i = 0) ∧
+    ∀ n b, getBackRefAccess t i = some (n, b) →
+      getBackRefRejectG t.lastUsed i.main i.off = false ∧ n < t.leaves.length ∧ n < brDataSz ∧
+      brSizeofBackRefBlock ≤ b ∧ b + 8 ≤ brBlockBytes ∧ b % 8 = 0 := by
+  rw [BE.getBackRefReject_gen t.lastUsed i.main i.off hm ho]
+  refine ⟨fun hr => ?_, fun n b h => ?_⟩
+  · have : getBackRefAccess t i = none := by unfold getBackRefAccess; rw [hr]; rfl
+    refine ⟨this, ?_⟩
+    unfold getBackRef; rw [this]
+  · obtain ⟨a1, a2, a3⟩ := getBackRefAccess_in_table t i n b h
+    have hc : brSizeofBackRefBlock + brMaxCnt * 8 ≤ brBlockBytes := by decide
+    have hle := hi.2.1
+    unfold getBackRefAccess at h
+    split at h
+    · cases h
+    · rename_i hrej
+      cases h
+      refine ⟨by simpa using hrej, a1, by omega, a2, by omega, ?_⟩
+      simp only [brSizeofBackRefBlock]; omega
+
+/-- **`recognize_sound` (large objects).**  If `isLargeObject<ourMem>(p)` answers yes, then `p` is 64-byte aligned and the
+index found in the word in front of `p` is LIVE, of the large kind, and its slot holds exactly the address of that header.
+(Hypothesis: the header address is not the address of a slot of the table itself — object memory and table memory are
+disjoint, which the back-end theorems give.)  Free and never-used slots hold null or a table address, so a stale index
+cannot make a foreign or freed pointer pass. -/
+theorem recognize_sound (t : Tab) (hi : tabInv t) (m : Mem) (p : Nat)
+    (hfor : ∀ l ∈ t.leaves, ∀ o, o < brMaxCnt → slotAddr l.base o ≠ p - beSizeofLargeObjectHdr)
+    (h : isLargeObject t m p = true) :
+    p % beLargeObjectAlignment = 0 ∧ (m.hdr (p - beSizeofLargeObjectHdr)).2.large = true ∧
+    t.live (m.hdr (p - beSizeofLargeObjectHdr)).2 = true ∧
+    getBackRef t (m.hdr (p - beSizeofLargeObjectHdr)).2 = p - beSizeofLargeObjectHdr := by
+  unfold isLargeObject at h
+  simp only [Bool.and_eq_true, beq_iff_eq, decide_eq_true_eq, bne_iff_ne, ne_eq] at h
+  obtain ⟨h1, ⟨⟨⟨h2, h3⟩, h4⟩, h5⟩⟩ := h
+  refine ⟨h1, h2, ?_, h5⟩
+  exact getBackRef_live_of_foreign t hi _ _ h5 (by omega) hfor
+
+/-- **`recognize_sound` (slab blocks).**  If `isSmallObject(p)` answers yes for a pointer whose slab base is not null and
+not a table address, the index in the slab header is live and its slot holds the slab's address. -/
+theorem recognize_small_sound (t : Tab) (hi : tabInv t) (m : Mem) (p : Nat) (h0 : p / beSlabSize * beSlabSize ≠ 0)
+    (hfor : ∀ l ∈ t.leaves, ∀ o, o < brMaxCnt → slotAddr l.base o ≠ p / beSlabSize * beSlabSize)
+    (h : isSmallObject t m p = true) :
+    t.live (m.slabIdx (p / beSlabSize * beSlabSize)) = true ∧
+    getBackRef t (m.slabIdx (p / beSlabSize * beSlabSize)) = p / beSlabSize * beSlabSize := by
+  unfold isSmallObject at h
+  simp only [beq_iff_eq] at h
+  exact ⟨getBackRef_live_of_foreign t hi _ _ h h0 hfor, h⟩
+
+/-- two pointers recognised through the table with different header addresses were recognised through different slots -/
+theorem backref_distinct_pointers_distinct_slots (t : Tab) (i j : Idx) (h : getBackRef t i ≠ getBackRef t j) :
+    i.main ≠ j.main ∨ i.off ≠ j.off := by
+  by_cases e1 : i.main = j.main
+  · by_cases e2 : i.off = j.off
+    · exfalso; apply h
+      unfold getBackRef getBackRefAccess
+      rw [e1, e2]
+    · exact Or.inr e2
+  · exact Or.inl e1
+
+/-! Non-vacuity: on the initial table the first index is (leaf 0, last slot); it is live, holds what was stored, a second
+`newBackRef` gives the slot below, and after `removeBackRef` the slot holds the (null) free-list link, not the pointer. -/
+example :
+    let t0 := BR.initTab 1000
+    let r1 := newBackRef t0 true []
+    r1.2.1 = some ⟨0, brMaxCnt - 1, true⟩ ∧ t0.live ⟨0, brMaxCnt - 1, true⟩ = false ∧ r1.1.live ⟨0, brMaxCnt - 1, true⟩ = true := by
+  decide
+
+end Backref
 
 end TbbVerif.C17
